@@ -877,6 +877,18 @@ class C03(EvalProp):
             el = [('n', float(k)) for k in range(ln)]
             cs.append(Case('bi%d' % i, gens.render_path(st), [r.choice([('a', el), ('a', [('a', el), ('a', [])]), ('o', [(b'k', ('a', el))])])]))
         cs += bigint_filter_cases(r, max(40, n // 40), with_doc=True)
+        # undecoded JSON handed in as the document ([]byte, json.RawMessage — well-formed or not): a foreign value like any other; the
+        # outcome is a value (for `$`) or one of the three documented errors, never an error of the decoder
+        for kind in ('bytes', 'rawjson', 'badraw'):
+            for i, path in enumerate([b'$', b'$.a', b'$..a', b'$[0]', b'$[?(@.a)]', b'$.*', b'$.a.b', b'$[0:1]', b'a']):
+                cs.append(Case('raw_%s_%d' % (kind, i), path, [('x', kind), ('o', [(b'a', ('x', kind))])], meta={'family': 'undecoded-json-document'}))
+        # an object with more than a thousand members, then small objects, through every step that enumerates members (whatever a
+        # call keeps for the next one must be good for the next one): every call returns, under the time limit
+        for i, path in enumerate([b'$.*', b'$[*]', b'$..*', b'$[?(@ >= 0)]', b'$..x']):
+            for big_n in ([1100, 3000] if ctx.quick else [1025, 1100, 2049, 3000, 5000]):
+                big = ('o', [(b'k%05d' % k, ('n', float(k))) for k in range(big_n)])
+                small = [('o', [(b'a', ('n', 1.0)), (b'b', ('n', 2.0))]), ('o', [(b'x', ('n', 3.0))]), ('o', [(b'p', ('n', 4.0)), (b'q', ('n', 5.0)), (b'r', ('n', 6.0))])]
+                cs.append(Case('big%d_%d' % (i, big_n), path, [small[0], big] + small * 4, meta={'family': 'thousand-members-then-few'}))
         # filters over arrays of several hundred elements (verdict lists longer than any block a filter might work in)
         for i in range(max(6, n // 600)):
             ln = r.choice([257, 258, 300, 513, 600])
@@ -3091,6 +3103,17 @@ class C10(Prop):
             doc = ('o', [(b'list', ('a', ms) if r.random() < 0.6 else ('o', list(zip(r.sample(gens.KEY_POOL, len(ms)), ms))))])
             cases.append(Case('x%d' % i, b'$.list[?(@.k =~ /' + pat + b'/)]', [doc, to_jnum(doc)]))
             meta.append((None, []))
+        # patterns that match EVERY text (the empty pattern, `.*` and its kin): still a test on strings — numbers, booleans, null and
+        # containers under the operand are not selected
+        for i, pat in enumerate([b'', b'.*', b'(?s).*', b'.*?', b'^.*$', b'x*', b'(.*)', b'.*.*', b'^', b'$']):
+            for rep in range(1 if ctx.quick else 3):
+                vals = [('s', b'ab'), ('s', b''), ('n', 10.0), ('n', 0.0), ('z',), ('b', True), ('b', False), ('a', []), ('o', []), ('a', [('s', b'ab')]), ('s', b'10')]
+                r.shuffle(vals)
+                ms = [('o', [(b'k', v), (b'u', ('n', float(j)))]) for j, v in enumerate(vals[:r.randint(6, 11)])] + [('o', [(b'u', ('n', 99.0))])]
+                doc = ('o', [(b'list', ('a', ms) if (i + rep) % 2 == 0 else ('o', list(zip(r.sample(gens.KEY_POOL, len(ms)), ms))))])
+                form = [b'$.list[?(@.k =~ /%s/)]', b'$.list[?(@.k =~ /%s/ && @.u >= 0)].u', b'$.list[?(@.k =~ /%s/ || @.u > 98)].u'][(i + rep) % 3]
+                cases.append(Case('xa%d_%d' % (i, rep), form % pat, [doc, to_jnum(doc)]))
+                meta.append((None, []))
         go, mo = both_sides(cases)
         for c, g_, m, mt in zip(cases, go, mo, meta):
             res.evaluations += 1
@@ -4067,6 +4090,22 @@ class C16(Prop):
                 c.meta = {'key': key, 'pos': 'uescape', 'escaped': True}
                 want[cid] = 'ok:[n(1,0)]'
                 cases.append(c)
+        # a quote character written as \\u0027 / \\u0022 inside either quote style: it is that character, and the key with the OTHER quote
+        # character in its place is a different key
+        for i in range(max(12, n // 200)):
+            pre, post = r.choice(['', 'a', 'it', 'x y']), r.choice(['', 'b', 's', '!'])
+            for j, (esc, ch, other) in enumerate([('\\u0027', "'", '"'), ('\\u0022', '"', "'")]):
+                key, twin = pre + ch + post, pre + other + post
+                members = [(key.encode(), ('n', 1.0)), (twin.encode(), ('n', 2.0)), ((pre + post + 'z').encode(), ('n', 3.0))]
+                r.shuffle(members)
+                for k2, q in enumerate("'\""):
+                    cid = 'uq%d_%d_%d' % (i, j, k2)
+                    tmpl = r.choice(['$[%s%s%s]', '$..[%s%s%s]', '$.w[%s%s%s]'])
+                    holder = ('o', members) if not tmpl.startswith('$.w') else ('o', [(b'w', ('o', members))])
+                    c = Case(cid, (tmpl % (q, pre + esc + post, q)).encode(), [holder])
+                    c.meta = {'key': key, 'pos': 'uescape-quote', 'escaped': True}
+                    want[cid] = 'ok:[n(1,0)]'
+                    cases.append(c)
         # the spelling the theorems C16_bracket_spelling_parses / C16_member_addressable speak about: Coq's key_path
         # (every control character as \\u00XX); the driver confirms that the path sent is exactly key_path q key
         for i in range(n // 4):
